@@ -69,6 +69,25 @@ RangeLoops == [
   strvar    |-> <<SDecl(EVar(Xs), EStr(<<97, 98>>)),
                   SFor(EVar(It(1)), EVar(Xs), <<SOpAssign(EVar(Xs), "+", EStr(<<99>>)), SPrint(EVar(It(1)))>>),
                   SPrint(EVar(Xs))>>,
+  \* the iterable is an expression that yields an existing list: still a snapshot
+  propiter  |-> <<SDecl(EVar(Xs), EObj(<<Pair(EStr(<<108>>), EList(<<EInt(1), EInt(2), EInt(3)>>))>>)),
+                  SFor(EVar(It(1)), EProp(EVar(Xs), <<108>>),
+                       <<SPrint(EVar(It(1))), SAssign(EIndex(EProp(EVar(Xs), <<108>>), EInt(2)), EInt(9)),
+                         SAssign(EIndex(EProp(EVar(Xs), <<108>>), EInt(1)), EInt(8))>>),
+                  SPrint(EVar(Xs))>>,
+  idxiter   |-> <<SDecl(EVar(Xs), EList(<<EList(<<EInt(1), EInt(2), EInt(3)>>)>>)),
+                  SFor(EVar(It(1)), EIndex(EVar(Xs), EInt(0)),
+                       <<SPrint(EVar(It(1))), SAssign(EIndex(EIndex(EVar(Xs), EInt(0)), EInt(2)), EInt(9))>>)>>,
+  calliter  |-> <<SDecl(EVar(Xs), EList(<<EInt(1), EInt(2), EInt(3)>>)), SFn(Fn(1), <<>>, FALSE, <<SReturn(EVar(Xs))>>),
+                  SFor(EVar(It(1)), ECall(EVar(Fn(1)), <<>>),
+                       <<SPrint(EVar(It(1))), SAssign(EIndex(EVar(Xs), EInt(2)), EInt(9)), SAssign(EIndex(EVar(Xs), EInt(1)), EInt(8))>>)>>,
+  pareniter |-> <<SDecl(EVar(Xs), EList(<<EInt(1), EInt(2), EInt(3)>>)),
+                  SFor(EVar(It(1)), EIndex(EList(<<EVar(Xs)>>), EInt(0)),
+                       <<SPrint(EVar(It(1))), SAssign(ERIndex(EVar(Xs), EInt(1), ENone), EList(<<EInt(8), EInt(9)>>))>>)>>,
+  objiter   |-> <<SDecl(EVar(Xs), EObj(<<Pair(EStr(<<111>>), EObj(<<Pair(EStr(<<97>>), EInt(1)), Pair(EStr(<<98>>), EInt(2))>>))>>)),
+                  SFor(EVar(It(1)), EProp(EVar(Xs), <<111>>),
+                       <<SPrint(EVar(It(1))), SAssign(EProp(EProp(EVar(Xs), <<111>>), <<98>>), EInt(9)),
+                         SAssign(EProp(EProp(EVar(Xs), <<111>>), <<99>>), EInt(7))>>)>>,
   whilecond |-> <<SDecl(EVar(Nn), EInt(0)), SFn(Fn(1), <<>>, FALSE, <<P(77), SReturn(EBin("<", EVar(Nn), EInt(2)))>>),
                   SWhile(ECall(EVar(Fn(1)), <<>>), <<SOpAssign(EVar(Nn), "+", EInt(1)),
                                                      SIf(EBin("==", EVar(Nn), EInt(2)), <<SContinue>>), P(1)>>),
